@@ -50,7 +50,9 @@ type Rep struct {
 	keys       map[string]bool
 }
 
-func NewRep(prop string) *Rep { return &Rep{Prop: prop, Analysed: map[string]int{}, keys: map[string]bool{}} }
+func NewRep(prop string) *Rep {
+	return &Rep{Prop: prop, Analysed: map[string]int{}, keys: map[string]bool{}}
+}
 
 // Rule opens a rule; subsequent obligations are counted against its floor.
 func (r *Rep) Rule(id, engine, text string, floor int) {
